@@ -101,11 +101,14 @@ class MetaConcurrent(type):
         # match multiple times - for example, when matching
         # Class[B] against Class[A, B], then B matches both A and B,
         #
+        # The base class itself - the type of a failure without any children -
+        # has no specialisations at all
+        children = subclass.specialisations or ()
         # Make sure that ``cls`` has no unmatched specialisations
         matched_specialisations = all(
             any(
                 issubclass(child, specialisation)
-                for child in subclass.specialisations
+                for child in children
             ) for specialisation in cls.specialisations
         )
         if not matched_specialisations:
@@ -123,7 +126,7 @@ class MetaConcurrent(type):
             # Concurrent[KeyError, LookupError], Concurrent[KeyError, RuntimeError]
             return not any(
                 not issubclass(child, cls.specialisations)
-                for child in subclass.specialisations
+                for child in children
             )
 
     # Specialisation Interface
